@@ -180,6 +180,8 @@ func runCase(c *core.Case) {
 	users := filepath.Join(srv.ConfigDir, "Users")
 	legacyDir := filepath.Join(srv.Dir, "legacy")
 	os.MkdirAll(legacyDir, 0755)
+	legacyDirSrc := filepath.Join(srv.Dir, "legacy-src")
+	os.MkdirAll(legacyDirSrc, 0755)
 	type item struct {
 		login string
 		set   []int
@@ -229,6 +231,7 @@ func runCase(c *core.Case) {
 		leg := fmt.Sprintf("Login: %s\nName: N\nPassword: %q\nAccess: [%d, %d, %d, %d, %d, %d, %d, %d]\nFileRoot: \"\"\n", it.login, fixture.HashPassword(""),
 			it.bm[0], it.bm[1], it.bm[2], it.bm[3], it.bm[4], it.bm[5], it.bm[6], it.bm[7])
 		os.WriteFile(filepath.Join(legacyDir, it.login+".yaml"), []byte(leg), 0644)
+		os.WriteFile(filepath.Join(legacyDirSrc, it.login+".yaml"), []byte(leg), 0644)
 	}
 	// (2) reload by a fresh manager
 	check := func(what string, m *verifshim.YAMLAccountManager) {
@@ -264,6 +267,39 @@ func runCase(c *core.Case) {
 				c.Fail("C16/legacy-not-migrated", "legacy file not rewritten in named form: %s", raw)
 			}
 		}
+	}
+	// (3b) a directory as a long-lived server has it: legacy files, named files and files without any Access section
+	// side by side. What one file says must not leak into the account loaded after it.
+	mixedDir := filepath.Join(srv.Dir, "mixed")
+	os.MkdirAll(mixedDir, 0755)
+	for gi, it := range items {
+		if gi%2 == 0 {
+			raw, _ := os.ReadFile(filepath.Join(legacyDirSrc, it.login+".yaml"))
+			os.WriteFile(filepath.Join(mixedDir, it.login+".yaml"), raw, 0644)
+		} else {
+			raw, _ := os.ReadFile(filepath.Join(users, it.login+".yaml"))
+			os.WriteFile(filepath.Join(mixedDir, it.login+".yaml"), raw, 0644)
+		}
+		if gi%3 == 0 {
+			bare := fmt.Sprintf("Login: %s~bare\nName: B\nPassword: %q\n", it.login, fixture.HashPassword(""))
+			os.WriteFile(filepath.Join(mixedDir, it.login+"~bare.yaml"), []byte(bare), 0644)
+		}
+	}
+	if m5, err := verifshim.NewYAMLAccountManager(mixedDir); err != nil {
+		c.Fail("C16/mixed-load", "directory with legacy, named and bare account files: %v", err)
+	} else {
+		check("mixed-load", m5)
+		for gi, it := range items {
+			if gi%3 != 0 {
+				continue
+			}
+			if a := m5.Get(it.login + "~bare"); a == nil {
+				c.Fail("C16/mixed-load/missing", "account file without an Access section was not loaded (%s~bare)", it.login)
+			} else if !bytes.Equal(a.Access[:], make([]byte, 8)) {
+				c.Fail("C16/mixed-load/bits-differ", "an account file without any Access section, loaded from a directory with other accounts, came back with privileges %x", a.Access)
+			}
+		}
+		c.Count("mixed_directory_loads", 1)
 	}
 	// (4) wire + (5) authorization
 	for gi, it := range items {
